@@ -94,6 +94,12 @@ pub fn package_base(i: usize) -> String {
 
 /// Builds the graph for the packages as JSR packages imported by a root.
 pub fn build_jsr_graph(pkgs: &[&Package]) -> ModuleGraph {
+  build_jsr_graph_with(pkgs, 0)
+}
+
+/// `skip_mask`: bit i set = the root module does not import package i itself
+/// (it is then in the graph only if another package depends on it)
+pub fn build_jsr_graph_with(pkgs: &[&Package], skip_mask: u8) -> ModuleGraph {
   let reg = registry_of(pkgs);
   let mat = registry::materialize(&reg, false);
   let mut served = mat.served;
@@ -104,10 +110,16 @@ pub fn build_jsr_graph(pkgs: &[&Package]) -> ModuleGraph {
     } else {
       format!("{PKG_NAME}{i}")
     };
+    if i < 8 && skip_mask & (1 << i) != 0 {
+      continue;
+    }
     for (k, _) in &pkg.exports {
       let sub = k.trim_start_matches('.');
       main.push_str(&format!("import \"jsr:{name}@{PKG_VERSION}{sub}\";\n"));
     }
+  }
+  if main.is_empty() {
+    main.push_str("export {};\n");
   }
   let root = Url::parse("file:///main.ts").unwrap();
   served.insert(
@@ -332,6 +344,8 @@ pub struct ExportSet {
   pub stars: Vec<String>,
   /// (exported name, kind) for own exported declarations
   pub kinds: BTreeMap<String, &'static str>,
+  /// `export { orig as name } from "src"`: (name, orig, src) - also in `names`
+  pub indirect: Vec<(String, String, String)>,
 }
 
 pub fn decl_kind(d: &ast::Decl) -> &'static str {
@@ -364,14 +378,19 @@ pub fn export_set(p: &ParsedSource) -> ExportSet {
         }
       }
       ast::ModuleDecl::ExportNamed(n) => {
+        let from = n.src.as_ref().map(|s| s.value.to_string_lossy().to_string());
         for s in &n.specifiers {
           match s {
             ast::ExportSpecifier::Named(n) => {
-              let name = n.exported.as_ref().unwrap_or(&n.orig);
-              out.names.insert(match name {
+              let text = |m: &ast::ModuleExportName| match m {
                 ast::ModuleExportName::Ident(i) => i.sym.to_string(),
                 ast::ModuleExportName::Str(s) => s.value.to_string_lossy().to_string(),
-              });
+              };
+              let name = n.exported.as_ref().unwrap_or(&n.orig);
+              if let Some(from) = &from {
+                out.indirect.push((text(name), text(&n.orig), from.clone()));
+              }
+              out.names.insert(text(name));
             }
             ast::ExportSpecifier::Namespace(n) => {
               out.names.insert(match &n.name {
